@@ -195,4 +195,48 @@ example : Inv params Ex.full := by decide
 example : next params Ex.full [137438953472] = (.errTime, Ex.full, []) := by decide
 example : next params Ex.full [137438953471, 137438953471, 137438953472] = (.errTime, Ex.full, []) := by decide
 
+/-! ### The translated source (Gen/C09.lean, `namespace Tr`, rewritten from snowflake.go on every run) equals the model.
+`Tr.uuid` is the expression `Next` assigns to `sf.lastID` (single-definition locals inlined) as a function of
+`sf.machineID`, `sf.seq`, `sf.backwardsCount` and the local `currentTs`, over int64 = `BitVec 64` with Go's wrap-around;
+`Tr.machineID` is what `NewSnowflake` stores in the machineID field. For all inputs in the range the model states. -/
+section Translated
+open Fatchoy.Gen.C09
+
+/-- the translated id expression is the model's `assemble` (no bit is lost in the 64-bit word) -/
+theorem C09_tr_uuid (mid seq bc ts : BitVec 64)
+    (hbc : bc.toNat ≤ params.maxBack) (hts : ts.toNat ≤ params.maxTime) (hmid : mid.toNat ≤ params.midMask) :
+    (Tr.uuid mid seq bc ts).toNat = assemble params bc.toNat ts.toNat mid.toNat seq.toNat := by
+  simp [params, maxBack, maxTime, midMask] at hbc hts hmid
+  have h1 : bc.toNat * 2305843009213693952 % 18446744073709551616 = bc.toNat * 2305843009213693952 :=
+    Nat.mod_eq_of_lt (by omega)
+  have h2 : ts.toNat * 16777216 % 18446744073709551616 = ts.toNat * 16777216 := Nat.mod_eq_of_lt (by omega)
+  have h3 : mid.toNat * 1024 % 18446744073709551616 = mid.toNat * 1024 := Nat.mod_eq_of_lt (by omega)
+  simp [Tr.uuid, assemble, params, shiftBc, shiftTs, shiftMid, Nat.shiftLeft_eq, h1, h2, h3]
+
+/-- … and as the signed int64 Go returns it is the same non-negative number (the model's `Nat` ids are faithful) -/
+theorem C09_tr_uuid_int (mid seq bc ts : BitVec 64)
+    (hbc : bc.toNat ≤ params.maxBack) (hts : ts.toNat ≤ params.maxTime) (hmid : mid.toNat ≤ params.midMask)
+    (hseq : seq.toNat ≤ params.maxSeq) :
+    (Tr.uuid mid seq bc ts).toInt = (assemble params bc.toNat ts.toNat mid.toNat seq.toNat : Nat) := by
+  have h := C09_tr_uuid mid seq bc ts hbc hts hmid
+  have hlt : assemble params bc.toNat ts.toNat mid.toNat seq.toNat < 2 ^ 63 := by
+    simp [params, maxBack, maxTime, midMask, maxSeq] at hbc hts hmid hseq
+    simp only [assemble, params, shiftBc, shiftTs, shiftMid, Nat.shiftLeft_eq]
+    exact Nat.or_lt_two_pow (Nat.or_lt_two_pow (Nat.or_lt_two_pow (by omega) (by omega)) (by omega)) (by omega)
+  rw [BitVec.toInt_eq_toNat_of_lt (by omega), h]
+
+/-- the translated machine-id expression of `NewSnowflake` is the model's masking, for every uint16 -/
+theorem C09_tr_machineID (m : BitVec 16) : (Tr.machineID m).toNat = (new params m.toNat 0).mid := by
+  have : m.toNat % 18446744073709551616 = m.toNat := Nat.mod_eq_of_lt (by have := m.isLt; omega)
+  simp [Tr.machineID, new, params, midMask, this]
+
+/-- non-vacuity: the range hypotheses hold at the largest admitted values of all four inputs -/
+example : (Tr.uuid 16383#64 1023#64 3#64 137438953471#64).toInt =
+    (assemble params 3 137438953471 16383 1023 : Nat) :=
+  C09_tr_uuid_int _ _ _ _ (by decide) (by decide) (by decide) (by decide)
+/-- test (one sample, not a proof): a machine id above the mask is cut to 14 bits -/
+example : Tr.machineID 0xC001#16 = 1#64 := by decide
+
+end Translated
+
 end Fatchoy.C09
